@@ -222,6 +222,24 @@ func Families(tier string, seed int64) []*spec.Program {
 			}
 			mk(fmt.Sprintf("f_chan_split%d", i), spec.Delivery{CLI: cli, Decoy: decoy, Perm: int64(r.n(1000))})
 		}
+		// the unsorted twin: a command line sort=false must win over sort: true in the file
+		ub := variant(base, "f_chanuns_base", "channel-base", "C16")
+		ub.Family = "f_chanuns_base"
+		ub.Config.Sort = false
+		ub.Config.RequiredFields = []string{"Beta.Id"}
+		ub.NoRun = true
+		out = append(out, ub)
+		for i, d := range []spec.Delivery{
+			{CLI: []string{"sort"}, Decoy: []string{"sort"}},
+			{CLI: []string{"sort", "types", "required_fields"}, Decoy: []string{"sort", "required_fields"}, SortSpelling: "FALSE"},
+			{CLI: []string{"sort"}, Decoy: []string{"sort"}, SortSpelling: "0", Pad: true},
+		} {
+			v := variant(ub, fmt.Sprintf("f_chanuns_%d", i), "channel", "C16")
+			v.Family = "f_chanuns_base"
+			v.Delivery = d
+			v.NoRun = true
+			out = append(out, v)
+		}
 		// package options through both channels (the output lands in another package: compared among themselves)
 		pb := variant(base, "f_chanpkg_base", "channel-base", "C16")
 		pb.Family = "f_chanpkg_base"
